@@ -57,6 +57,39 @@ def scoping_programs(tier, rnd):
     add("loop-body-redeclare-each-pass", prog([iter_(["V"], lst(num(1), num(2)), [decl("T", var("V")), disp(var("T"))]), ex(num(0))]))
     add("handler-sees-inputs-not-body-locals", prog([disp(call("F", num(3)))],
         funcs=[func("F", ["X"], [decl("L", num(7)), ex(idx(lst(), num(1))), ret(num(0))], [catch("@exc", [disp(var("X")), ret(num(1))])])]))
+    # ---- a call that fails while its inputs are being bound (wrong count) opens no scope that survives it:
+    # the enclosing method catches the error and goes on; afterwards every depth is what it was
+    for nargs, tag in ((0, "too-few"), (2, "too-many")):
+        args = [num(5)] * nargs
+        add("failed-binding-%s-caught-by-caller" % tag, prog(
+            [decl("A", num(1)), disp(call("M", num(3))), disp(A), if_([b(True)], [[decl("X", num(2)), disp(var("X"))]]), decl("X", num(9)), disp(var("X")), disp(var("L")), mark("dead")],
+            funcs=[func("G", ["P"], [ret(var("P"))]),
+                   func("M", ["X"], [decl("L", num(7)), if_([b(True)], [[decl("T", num(8)), ex(call("G", *args)), mark("dead-m")]]), ret(num(0))],
+                        [catch("@exc", [disp(var("X")), disp(var("T")), ret(num(1))])])]))
+        add("failed-binding-%s-handler-sees-no-body-locals" % tag, prog(
+            [disp(call("M", num(3))), mark("end"), ex(num(0))],
+            funcs=[func("G", ["P"], [ret(var("P"))]),
+                   func("M", ["X"], [decl("L", num(7)), ex(call("G", *args)), ret(num(0))], [catch("@exc", [disp(var("X")), disp(var("L")), ret(num(1))])])]))
+        add("failed-binding-%s-in-loop" % tag, prog(
+            [decl("A", num(1)), iter_(["V"], lst(num(1), num(2), num(3)), [disp(call("M", var("V"))), decl("B", var("V")), disp(A, B)]), disp(A), disp(B), mark("dead")],
+            funcs=[func("G", ["P"], [ret(var("P"))]),
+                   func("M", ["X"], [ex(call("G", *args)), ret(num(0))], [catch("@exc", [ret(var("X"))])])]))
+    add("failed-ctor-binding-caught", prog(
+        [decl("A", num(1)), disp(call("M")), disp(A), decl("Z", num(2)), disp(var("Z")), ex(num(0))],
+        classes=[cls("K", [("p", num(1))], ctor=func("K", ["Q"], [ex(asg(this("p"), var("Q")))]))],
+        funcs=[func("M", [], [decl("L", num(7)), ex(new("K")), ret(num(0))], [catch("@exc", [mark("h"), ret(num(1))])])]))
+    # ---- an inner declaration legally shadows a module-level method / type of the same name: reads, assignments and
+    # the end of the block all concern the inner name
+    for k in kinds:
+        add("shadow-method-name-%s" % k, prog(blk(k, [decl("F", num(2)), disp(var("F")), ex(asg(var("F"), num(3))), disp(var("F")), disp(bin_("add", var("F"), num(1)))]) + [disp(call("F")), ex(num(0))],
+                                              funcs=[func("F", [], [ret(num(4))])]))
+        add("shadow-type-name-%s" % k, prog(blk(k, [decl("K", lst(num(2))), disp(var("K")), disp(idx(var("K"), num(1)))]) + [decl("O", new("K")), disp(mem(var("O"), "p")), ex(num(0))],
+                                            classes=[cls("K", [("p", num(1))])]))
+    add("shadow-method-name-by-input", prog([disp(call("G", num(5))), disp(call("F")), ex(num(0))],
+        funcs=[func("F", [], [ret(num(4))]), func("G", ["F"], [disp(var("F")), ret(bin_("add", var("F"), num(1)))])]))
+    add("shadow-method-name-by-loop-var", prog([iter_(["F"], lst(num(7), num(8)), [disp(var("F"))]), disp(call("F")), ex(num(0))], funcs=[func("F", [], [ret(num(4))])]))
+    add("shadow-method-name-by-yield", prog([ex(call("G", y="F")), disp(var("F")), ex(num(0))], funcs=[func("F", [], [ret(num(4))]), func("G", [], [ret(num(6))])]))
+    add("shadow-method-name-top-level", prog([decl("F", num(2)), disp(var("F")), ex(num(0))], funcs=[func("F", [], [ret(num(4))])]))
     add("program-input-const", prog([disp(var("IN1"), var("IN2")), ex(asg(var("IN2"), num(9))), mark("dead")], inputs=["IN1", "IN2"]))
     return P
 
